@@ -80,6 +80,11 @@ def run_history(ctx, rng, cfg=None):
             handles.append(mod.register_forward_hook(post))
     nb_total = 0
     g = torch.Generator().manual_seed(rng.getrandbits(30))
+    # how the batches reach the model: fresh tensors, or one input buffer refilled in place (same address, new contents)
+    reuse = (cfg or {}).get("reuse")
+    if reuse is None:
+        reuse = rng.random() < 0.35
+    inbuf = torch.empty(shape, dtype=dt)
     with torch.no_grad():
         for c in range(nctx):
             with Calibration(momentum=momentum, streamline=streamline):
@@ -89,12 +94,17 @@ def run_history(ctx, rng, cfg=None):
                     x = (torch.randn(shape, generator=g) * mag).to(dt)
                     if rng.random() < 0.15:
                         x = x / x.abs().max() * torch.tensor(mag, dtype=dt)    # absmax exactly = mag (sentinel probes: scale exactly 1)
-                    model(x)
+                    if reuse:
+                        inbuf.copy_(x)
+                        del x
+                        model(inbuf)
+                    else:
+                        model(x)
                     nb_total += 1
     for h in handles:
         h.remove()
     return {"F": F, "kind": kind, "act": act, "momentum": momentum, "streamline": streamline, "contexts": nctx, "batches": nb_total,
-            "events": events, "model": model}
+            "events": events, "model": model, "reuse": reuse}
 
 
 def sentinel_witness():
@@ -234,11 +244,12 @@ def run(ctx, directed=True):
         for F_ in ("f32", "f16", "bf16"):
             for act_ in ("qint8", "qfloat8_e4m3fn", "qfloat8_e5m2"):
                 for mom_, mags_ in ((0.9, [1e-3, 3e-3, 3e-3, 3e-3, 3e-3, 3e-3]), (0.5, [1e-5, 2e-5, 4e-5, 4e-5]), (0.9, [300.0, 900.0, 900.0])):
-                    cfgs.insert(0, {"momentum": mom_, "F": F_, "act": act_, "mags": mags_, "streamline": False})
+                    cfgs.insert(0, {"momentum": mom_, "F": F_, "act": act_, "mags": mags_, "streamline": False, "reuse": mags_[0] == 1e-5})
     for cfg in cfgs:
         h = run_history(ctx, rng, cfg)
         ctx.evaluations += 1
         ctx.count(f"{h['kind']}:{h['F']}:{h['act']}:streamline={h['streamline']}:contexts={h['contexts']}")
+        ctx.count(f"input-buffer-reused={h['reuse']}")
         for name, mod in h["model"].named_modules():
             if not isinstance(mod, QModuleMixin):
                 continue
